@@ -57,6 +57,8 @@ struct St {
 pub struct Controller {
     st: Mutex<St>,
     cv: Condvar,
+    /// fast path: mode is Off and points are not logged
+    idle: std::sync::atomic::AtomicBool,
 }
 
 static CTRL: OnceLock<Arc<Controller>> = OnceLock::new();
@@ -74,6 +76,7 @@ pub fn controller() -> Arc<Controller> {
                 log_points: false,
             }),
             cv: Condvar::new(),
+            idle: std::sync::atomic::AtomicBool::new(true),
         });
         let c2 = c.clone();
         metrique_writer_core::verif::install(Some(Arc::new(move |name, args| {
@@ -148,6 +151,9 @@ impl Controller {
     }
 
     fn on_point(&self, name: &'static str, args: &[i64]) {
+        if self.idle.load(std::sync::atomic::Ordering::Relaxed) {
+            return;
+        }
         let mut st = self.st.lock().unwrap();
         match st.mode {
             Mode::Off => {
@@ -238,6 +244,7 @@ impl Controller {
     ) {
         let mut st = self.st.lock().unwrap();
         st.mode = Mode::Gate;
+        self.idle.store(false, std::sync::atomic::Ordering::SeqCst);
         st.thread_names = thread_names.iter().cloned().collect();
         st.actors = actors.iter().map(|a| (*a, (A::Running, 0))).collect();
         st.gating = gating.iter().copied().collect();
@@ -252,6 +259,7 @@ impl Controller {
             permille,
             max_us,
         };
+        self.idle.store(false, std::sync::atomic::Ordering::SeqCst);
         st.thread_names.clear();
         st.actors.clear();
         st.points.clear();
@@ -263,6 +271,7 @@ impl Controller {
     pub fn free_run(&self) {
         let mut st = self.st.lock().unwrap();
         st.mode = Mode::Off;
+        self.idle.store(!st.log_points, std::sync::atomic::Ordering::SeqCst);
         self.cv.notify_all();
     }
 
